@@ -173,7 +173,9 @@ int main(int argc, char** argv) {
 		}
 		// ---------------- monotonic fits (C10)
 		for (int md = 0; md < p.nd; md++) {
-			std::vector<float> c; bool ok = run_fit(p, md, false, false, false, c, rng);
+			// every third monotonic fit goes through the C interface (splinetable_glamfit) and is judged by the same rules
+			const bool via_c = (np + md) % 3 == 2;
+			std::vector<float> c; bool ok = run_fit(p, md, false, false, via_c, c, rng);
 			int m = p.nspl[md]; int inner = 1; for (int e = md + 1; e < p.nd; e++) inner *= p.nspl[e]; int outer = p.ntot / (m * inner);
 			// ranks of the coefficients along the monotonic dimension (order relations only), one line per fibre
 			std::ostringstream rk; rk << "["; bool nondecr = ok; int nf = 0;
@@ -202,7 +204,7 @@ int main(int argc, char** argv) {
 				if (scale != 1.0) inactive = false;
 			}
 			acls += "]"; gcls += "]";
-			JW w; w.s("kind", "mono").i("pid", np).i("monodim", md).b("completed", ok).b("nondecreasing", nondecr).raw("ranks", rk.str()).raw("a", acls).raw("g", gcls).b("inactive", inactive).b("same_as_unconstrained", same_as_unconstrained)
+			JW w; w.s("kind", "mono").s("api", via_c ? "c" : "cxx").i("pid", np).i("monodim", md).b("completed", ok).b("nondecreasing", nondecr).raw("ranks", rk.str()).raw("a", acls).raw("g", gcls).b("inactive", inactive).b("same_as_unconstrained", same_as_unconstrained)
 			     .d("errU", (double)errU).d("bound", (double)bound).d("cond", (double)cond).i("ndim", p.nd).d("scale", scale).raw("problem", line.substr(line.find("\"p\":") + 4, line.rfind('}') - line.find("\"p\":") - 4)); w.emit(out);
 		}
 	}
